@@ -411,6 +411,15 @@ def c20(tier):
         os.remove(res["out"])
         os.remove(tr)
     os.remove(trace)
+    # bursts: > 32 document notifications without a request in between, on documents large enough for the reader to run
+    # ahead of the broker (the document channel really fills up), then one request per document
+    _refute(c, "MC_LspServer", "MC_LspServer_spawn.cfg", "SpawnOnFull (a change that finds doctx full is sent later by a spawned task)")
+    procs, num = (3, 2) if tier == "quick" else (16, 6)
+    res = vlib.tlc_sim_multi("MC_LspScripts", "Sim_LspScripts_burst.cfg", "c20_burst", procs, num, 151)
+    c.add_tlc(res, "Sim_LspScripts_burst (144 notifications, then requests)")
+    r = _srv("script", res["out"], "c20_burst", exe_v, ["verif=1", "chunk=one", "big=1", "bound_ms=240000"])
+    c.add_harness(r, "bursts of 144 notifications on 30 KiB documents")
+    os.remove(res["out"])
     c.assumptions = ["OS-level scheduling is sampled, not enumerated; interleavings are enumerated on the model and tied to the code by trace validation",
                      "relative order of broker-independent responses and diagnostics is not constrained (benign race, modelled)"]
     c.exhaustive = True
